@@ -103,9 +103,41 @@ func (m Msg) isNotification() bool { return m.Kind == "open" || m.Kind == "chang
 
 func (m Msg) isUpdate() bool { return m.Kind == "open" || m.Kind == "change" }
 
+// versionJSON renders a version number the way some clients do: JSON does not
+// distinguish 2 from 2.0 or 2e0.
+func versionJSON(v int, style int) json.RawMessage {
+	switch style % 7 {
+	case 5:
+		return json.RawMessage(fmt.Sprintf("%d.0", v))
+	case 6:
+		return json.RawMessage(fmt.Sprintf("%de0", v))
+	}
+	return json.RawMessage(fmt.Sprint(v))
+}
+
 func (m Msg) params(version int) any {
+	style := version + len(m.URI)
 	if m.Ver > 0 {
 		version = m.Ver
+	}
+	if m.Kind == "open" || m.Kind == "change" {
+		vj := versionJSON(version, style)
+		if m.Kind == "open" {
+			return map[string]any{"textDocument": map[string]any{"uri": m.URI, "languageId": "numscript", "version": vj, "text": m.Texts[0]}}
+		}
+		var ch []any
+		for _, t := range m.Texts {
+			ch = append(ch, map[string]any{"text": t})
+		}
+		return map[string]any{"textDocument": map[string]any{"uri": m.URI, "version": vj}, "contentChanges": ch}
+	}
+	if (m.Kind == "hover" || m.Kind == "definition" || m.Kind == "symbols") && style%3 == 0 {
+		// optional fields of the protocol that this server does not use
+		p := map[string]any{"textDocument": map[string]any{"uri": m.URI}, "workDoneToken": "wd-1", "partialResultToken": 7}
+		if m.Kind != "symbols" {
+			p["position"] = map[string]any{"line": m.Line, "character": m.Char}
+		}
+		return p
 	}
 	switch m.Kind {
 	case "close":
